@@ -173,3 +173,22 @@ def pred_c03(case, impl, model, ctx):
     if len(impl) > len(case.ops):
         return False
     return True
+
+
+def selfcheck_val(cases, model):
+    """a sample of validator verdicts of the compiled driver, as kernel-checked equations"""
+    fn = {"can": "canValid", "canfd": "canValid", "lin": "linValid", "eth": "ethValid", "analog": "analogValid", "cm": "cmValid", "if": "ifValid"}
+    ex = []
+    seen = set()
+    for c, m in zip(cases, model):
+        for o, l in zip(c.ops, m):
+            w = o.split(" ")
+            if w[0] != "val" or w[2] == "-" or len(w[2]) > 160 or len(w[2]) < 12:
+                continue
+            key = (w[1], l.startswith("valid=1"))
+            if key in seen:
+                continue
+            seen.add(key)
+            b = bytes.fromhex(w[2])
+            ex.append("example : %s ([%s] : Bytes) = %s := by decide" % (fn[w[1]], ", ".join(str(x) for x in b), "true" if key[1] else "false"))
+    return ["AsamCmp.Packet"], ex[:14]
